@@ -2,7 +2,8 @@
    Emulator side: task_op / task_event of Emu/EmuCoreDefs.v (src/emu/body.c, task.c, update_task of
    nosv/event.c and nanos6/event.c); spec: Emu/TaskSpecDefs.v. *)
 From Coq Require Import ZArith List Bool.
-From OV Require Import Emu.EmuCoreDefs Emu.TaskSpecDefs Proofs.EmuCoreProofs Proofs.TaskProofs Proofs.EmuCoreWf.
+From OV Require Import Emu.EmuCoreDefs Emu.TaskSpecDefs Emu.TaskViewDefs Proofs.EmuCoreProofs Proofs.TaskProofs Proofs.EmuCoreWf
+  Proofs.LabelDecode Proofs.TaskViewProofs.
 Import ListNotations.
 Local Open Scope Z_scope.
 
@@ -75,6 +76,59 @@ Proof.
 Qed.
 Print Assumptions C07_views_partial.
 
+(* VIEWS (full): "While a body runs its thread shows that task's id, type, body id, app id and rank, and shows
+   nothing when no body runs."  For any emulation (any subset en of the eight models, any mark types ms, channel
+   specs dumped from the source), any list of raw events and every prefix of an accepted run: on the row of every
+   thread t, the PRV type of every task channel (f, k) of every enabled task model (nOS-V: body id, task id, type,
+   app id, rank; Nanos6: task id, type, rank) shows, exactly while the thread state satisfies the tracking mode
+   of the channel, the field f of the body that runs on t (body_get_running of t's stack of that model), and
+   nothing (0) when no body runs there.  expected_field is field_value (b_id, tk_id, tk_gid, ti_appid,
+   ti_rank + 1) except that the rank channel stays null for a process without a rank (it is never written).
+   types_ok sx (distinct PRV types, as in C06/C17) holds as soon as the mark types are distinct and
+   non-negative: C07_views_types_ok. *)
+Theorem C07_views : forall sx en ms revs1 revs2 st tl,
+  In en (sublists all_models) -> s_chans sx = DecodeDefs.mk_chans en ++ MarkDefs.mark_chans ms -> types_ok sx ->
+  run_from sx (init sx) (decode_events en (s_chans sx) (revs1 ++ revs2)) = Ok (st, tl) ->
+  exists st1 tl1, run_from sx (init sx) (decode_events en (s_chans sx) revs1) = Ok (st1, tl1) /\
+    forall t, (t < length (s_threads sx))%nat ->
+    forall cfg mdl, In (cfg, mdl) (task_models en (s_chans sx)) ->
+    forall f k, In (f, k) (tc_chans cfg) ->
+      let sp := spec_of sx k in
+      let ti := nth t (s_threads sx) dummy_info in
+      EmitProofs.shown (lines_of tl1) (false, t, cs_type sp) =
+      EmitProofs.printed (cs_flags sp)
+        (if mode_ok (cs_thtrack sp) (thread_state_of st1 t)
+         then match running_top st1 (ti_loom ti) (ti_pid ti) (nth t (threads st1) dummy_thread) mdl with
+              | Some (tk, b) => expected_field ti tk b f
+              | None => None
+              end
+         else None).
+Proof. exact task_views. Qed.
+Print Assumptions C07_views.
+
+(* the state invariant behind it: in every reachable state every task channel of every thread holds the field of
+   the running body, or null *)
+Theorem C07_task_channels : forall sx en ms revs st tl,
+  In en (sublists all_models) -> s_chans sx = DecodeDefs.mk_chans en ++ MarkDefs.mark_chans ms ->
+  run_from sx (init sx) (decode_events en (s_chans sx) revs) = Ok (st, tl) ->
+  forall t, (t < length (s_threads sx))%nat ->
+  forall cfg mdl, In (cfg, mdl) (task_models en (s_chans sx)) ->
+  forall f k, In (f, k) (tc_chans cfg) ->
+    let ti := nth t (s_threads sx) dummy_info in
+    r_val (raw_of st t k) =
+    match running_top st (ti_loom ti) (ti_pid ti) (nth t (threads st) dummy_thread) mdl with
+    | Some (tk, b) => expected_field ti tk b f
+    | None => None
+    end.
+Proof. exact reachable_tv. Qed.
+Print Assumptions C07_task_channels.
+
+Theorem C07_views_types_ok : forall sx en ms,
+  In en (sublists all_models) -> s_chans sx = DecodeDefs.mk_chans en ++ MarkDefs.mark_chans ms ->
+  NoDup (map MarkDefs.mt_type ms) -> (forall m, In m ms -> 0 <= MarkDefs.mt_type m) -> types_ok sx.
+Proof. exact types_ok_marks. Qed.
+Print Assumptions C07_views_types_ok.
+
 (* non-vacuity: a nOS-V history: type, task, execute, pause, resume, end *)
 Definition chansV := DecodeDefs.mk_chans [DecodeDefs.M_OVNI; DecodeDefs.M_NOSV].
 Definition sxV : static :=
@@ -102,4 +156,38 @@ Example C07_ex_twice_refused :
          (12, 0%nat, EvTaskCreate 4 86 1 5 false true true false);
          (13, 0%nat, EvTask cfgV 86 K_EXEC 1 0); (14, 0%nat, EvTask cfgV 86 K_EXEC 1 0)] with
   | Ok _ => true | Err _ => false end = false.
+Proof. vm_compute. reflexivity. Qed.
+
+(* non-vacuity of C07_views: the same history as raw events (OHx, VYc, VTc, VTx, VTp, VTr, VTe) through the decoder;
+   the hypotheses hold, and the rows task id (10), type (11), body id (15), app id (12), rank (14) of the thread
+   show the fields after x and after r, and nothing after c, p and e (the process has no rank: always 0) *)
+Definition enV := [DecodeDefs.M_OVNI; DecodeDefs.M_NOSV].
+Definition rawV : list raw_event :=
+  [(10, 0%nat, (79, 72, 120), [0; 0; 0; 0], false, 0);
+   (11, 0%nat, (86, 89, 99), [0; 0; 0; 0; 5; 0; 0; 0], true, 1234);
+   (12, 0%nat, (86, 84, 99), [1; 0; 0; 0; 5; 0; 0; 0], false, 0);
+   (13, 0%nat, (86, 84, 120), [1; 0; 0; 0; 0; 0; 0; 0], false, 0);
+   (14, 0%nat, (86, 84, 112), [1; 0; 0; 0; 0; 0; 0; 0], false, 0);
+   (15, 0%nat, (86, 84, 114), [1; 0; 0; 0; 0; 0; 0; 0], false, 0);
+   (16, 0%nat, (86, 84, 101), [1; 0; 0; 0; 0; 0; 0; 0], false, 0)].
+Example C07_ex_views_hyps :
+  In enV (sublists all_models) /\ s_chans sxV = DecodeDefs.mk_chans enV ++ MarkDefs.mark_chans [] /\ types_ok sxV /\
+  task_models enV (s_chans sxV) = [(cfgV, 86)] /\
+  map (fun '(f, k) => (f, cs_type (spec_of sxV k))) (tc_chans cfgV) = [(FBody, 15); (FTask, 10); (FType, 11); (FApp, 12); (FRank, 14)] /\
+  (exists st tl, run_from sxV (init sxV) (decode_events enV (s_chans sxV) rawV) = Ok (st, tl)).
+Proof.
+  split.
+  { assert (H : existsb (fun l => if list_eq_dec Z.eq_dec l enV then true else false) (sublists all_models) = true) by (vm_compute; reflexivity).
+    apply existsb_exists in H as (l & Hin & E). destruct (list_eq_dec Z.eq_dec l enV) as [->|]; [exact Hin|discriminate E]. }
+  split; [vm_compute; reflexivity|]. split; [apply types_okb_ok; vm_compute; reflexivity|].
+  split; [vm_compute; reflexivity|]. split; [vm_compute; reflexivity|].
+  destruct (run_from sxV (init sxV) (decode_events enV (s_chans sxV) rawV)) as [[st tl]|] eqn:E; [eauto|].
+  vm_compute in E. discriminate E.
+Qed.
+Example C07_ex_views :
+  map (fun n => match run_from sxV (init sxV) (decode_events enV chansV (firstn n rawV)) with
+                | Ok (_, tl) => Some (map (fun ty => EmitProofs.shown (lines_of tl) (false, 0%nat, ty)) [10; 11; 15; 12; 14])
+                | Err _ => None
+                end) [3; 4; 5; 6; 7]%nat
+  = [Some [0; 0; 0; 0; 0]; Some [1; 1234; 1; 1; 0]; Some [0; 0; 0; 0; 0]; Some [1; 1234; 1; 1; 0]; Some [0; 0; 0; 0; 0]].
 Proof. vm_compute. reflexivity. Qed.
